@@ -75,6 +75,13 @@ def oracle(cfg):
                 np.array_equal(np.asarray(a, dtype=np.int64), np.asarray(b, dtype=np.int64)) for a, b in zip(ap["D"], D))
             if not same or not np.array_equal(np.asarray(ap["L"]), L.astype(np.int64)):
                 viol.append(sched.vio("analyzer_plan_differs", name, cfg))
+            else:
+                # the analyzer's plan states the same counts as the segmentation it carries
+                for j in range(nf):
+                    if not (int(ap["K"][j]) == int(ap["navg"][j]) == len(ap["D"][j])):
+                        viol.append(sched.vio("analyzer_plan_count_differs_from_starts", name, cfg, j, K=int(ap["K"][j]),
+                                              navg=int(ap["navg"][j]), nstarts=len(ap["D"][j]), verbose=bool(cfg.get("verbose", False))))
+                        break
     labels = sched.classify(name, cfg, plan)
     nontrivial = nf >= 3 and len(set(L.tolist())) >= 2 and bool(np.any(navg >= 2))
     return Res(viol, nontrivial, labels)
@@ -88,7 +95,8 @@ def analyzer_case(draw, tier):
     N = draw(st.one_of(st.integers(8, 64), gens.loguniform_int(8, 5000)))
     c = {"N": N, "fs": draw(st.sampled_from([1.0, 2.0, 1000.0, 0.01])), "win": draw(st.sampled_from(gens.WIN_NAMES)),
          "psll": draw(st.one_of(st.sampled_from([200, 100, 60, 30]), st.floats(30, 250))),
-         "sched": draw(st.sampled_from(sched.NAMES + ["<default>"])), "defaults": draw(st.booleans())}
+         "sched": draw(st.sampled_from(sched.NAMES + ["<default>"])), "defaults": draw(st.booleans()),
+         "verbose": draw(st.booleans())}
     if not c["defaults"]:
         c.update(bmin=draw(st.sampled_from([1.0, 1.5, 2.0])), Lmin=draw(st.sampled_from([1, 2, max(1, N // 3)])),
                  Jdes=draw(st.integers(1, 300)), Kdes=draw(st.integers(1, 200)))
@@ -101,7 +109,7 @@ def oracle_analyzer(c):
     from speckit import SpectrumAnalyzer
     from .. import gens
     N = int(c["N"])
-    kw = dict(win=gens.resolve_window(c["win"])[0], psll=c["psll"])
+    kw = dict(win=gens.resolve_window(c["win"])[0], psll=c["psll"], verbose=bool(c.get("verbose", False)))
     if c["sched"] != "<default>":
         kw["scheduler"] = c["sched"]
     if not c["defaults"]:
